@@ -6,7 +6,7 @@ use crate::rng::Rng;
 use crate::text::*;
 use lber::common::TagClass;
 use lber::structure::{StructureTag, PL};
-use ldap3::controls::{Assertion, ControlParser, EntryState, MakeCritical, ManageDsaIt, MatchedValues, PagedResults, PostRead, PreRead, ProxyAuth, RawControl, ReadEntryResp, RefreshMode, RelaxRules, SyncDone, SyncInfo, SyncRequest, SyncState, TxnSpec, parse_syncinfo};
+use ldap3::controls::{Assertion, EntryState, MakeCritical, ManageDsaIt, MatchedValues, PagedResults, PostRead, PreRead, ProxyAuth, RawControl, ReadEntryResp, RefreshMode, RelaxRules, SyncDone, SyncInfo, SyncRequest, SyncState, TxnSpec, parse_syncinfo};
 use ldap3::exop::*;
 use ldap3::ResultEntry;
 
